@@ -150,8 +150,10 @@ def main(argv=None) -> int:
     findings = load_findings()
     by_name = all_obs
     canaries = [o for o in obs if o["family"] == "CANARY"]
-    real = [o for o in obs if o["family"] != "CANARY"]
+    real = [o for o in obs if o["family"] not in ("CANARY", "SELFTEST")]
     canary_bad = [o for o in canaries if o["status"] != REFUTED]
+    selftests = [o for o in obs if o["family"] == "SELFTEST"]
+    canary_bad += [o for o in selftests if o["status"] != PROVED]
     refuted = [o for o in real if o["status"] == REFUTED]
     undecided = [o for o in real if o["status"] == UNDECIDED]
     known, new = [], []
@@ -245,7 +247,8 @@ def main(argv=None) -> int:
         "scenarios": scen_info,
         "backends": backends,
         "instrumentation_rewrites": rewrites,
-        "vacuity": {"canaries_expected_refuted": len(canaries), "canaries_refuted": len(canaries) - len(canary_bad),
+        "vacuity": {"canaries_expected_refuted": len(canaries), "canaries_refuted": len([o for o in canaries if o["status"] == REFUTED]),
+                    "engine_selftests": [{"name": o["name"], "statement": o["statement"], "status": o["status"]} for o in selftests],
                     "obligations_nonzero": len(real) > 0},
         "bounded_standins": bounded + extra.get("bounded_standins", []),
         "samples": samples,
@@ -285,7 +288,7 @@ def main(argv=None) -> int:
         return 1 if lines else 3
     if canary_bad:
         for o in canary_bad:
-            print(f"INTERNAL-ERROR property={prop} canary {o['name']} was not refuted (engine is vacuous)")
+            print(f"INTERNAL-ERROR property={prop} vacuity/self-test guard {o['name']} failed: {o.get('detail', '')[:200]}")
         return 1 if lines else 3
     if lines:
         return 1
